@@ -177,7 +177,7 @@ Proof.
     + pose proof (revert_wf s id Hw) as X. unfold step. destruct (revert_to s id); exact X.
     + exact (finalise_wf de s Hw).
     + exact (intermediate_root_wf de s Hw).
-    + exact (commit_wf de s Hw).
+    + pose proof (commit_wf de s Hw) as X. unfold step. destruct (commit de s); exact X.
 Qed.
 
 Lemma run_wf : forall ops s, wf s -> wf (run ops s).
